@@ -393,7 +393,7 @@ def replay_ome(point, morder, method):
 def main():
     chk = H.Check("C11")
     thorough = H.tier() == "thorough"
-    chk.bounds = ["singlet: all 8 methods, orders 1-3 (quick) and 4 (thorough), symbolic beta_k, momentum-conserving symbolic gamma_k; iterate with 2 iterations, perturbative with 1; decompose at orders >= 3 decided on the exponent handed to exp_matrix_2D (v.M == 0) together with C23",
+    chk.bounds = ["singlet: all 8 methods, orders 1-3 (quick) and 4 (thorough; perturbative methods at order 4 through their U_k / R_k building blocks), symbolic beta_k, momentum-conserving symbolic gamma_k; iterate with 2 iterations, perturbative with 1; decompose at orders >= 3 decided on the exponent handed to exp_matrix_2D (v.M == 0) together with C23",
                   "QED singlet iterate: 2 symbolic steps, orders (1,1),(2,1) (quick) + (2,2),(3,2) (thorough), exp_matrix by its series through eps^3",
                   "scale variations: expanded singlet (QCD, QED) and exponentiated, orders 1-4 / (1..3,1..2), nf 3-6; alpha_em running on and off",
                   "build_ome: forward, expanded inverse, exact inverse; matching orders 0-3; 3x3 symbolic A_k"]
@@ -403,8 +403,8 @@ def main():
         for mth in METHODS:
             if o == 1 and mth != "ITERATE_EXACT":
                 continue
-            if not thorough and o >= 3 and mth.startswith("PERTURBATIVE"):
-                continue  # ~10 min each: thorough tier; the quick tier decides the U_k / R_k building blocks instead (case_uvec)
+            if o >= (4 if thorough else 3) and mth.startswith("PERTURBATIVE"):
+                continue  # order 3: ~20 min each (thorough tier only); order 4: > 90 min -- decided through the U_k / R_k building blocks (case_uvec) instead
             chk.case("singlet.%s.o%d" % (mth, o), case_singlet, order=o, method=mth)
     for o in (3, 4):
         for ex in (True, False):
